@@ -565,7 +565,7 @@ func GenCleanup() {
 //	            with a repeated map key: no node can hold them)
 //	cbor, json  codec text written by the harness (entry order and repeated keys kept), decoded into the builder
 //	direct-rand assembler calls, every choice of the builder contract drawn from the request's seed
-var GenRoutes = []string{"direct", "keys", "node", "cbor", "json", "direct-rand"}
+var GenRoutes = []string{"direct", "keys", "node", "cbor", "json", "direct-rand", "direct-uint"}
 
 // GenPayload is the third field of a request: the input term, or the hex of the harness-written codec text.
 // ok == false: the route cannot carry the input.
@@ -711,6 +711,33 @@ func assembleKeys(na datamodel.NodeAssembler, v Val) error {
 // `-` (GenUnreadable).  The detail (error text) is for humans; only the observation is compared.  route `direct-rand`
 // takes its seed from `seed`.
 func GenObserve(proto datamodel.NodePrototype, route, payload string, seed uint64) string {
+	if route == "reset-ops" {
+		// `<ops of a first history> RESET <ops of a second history>`: the first history is run on a builder (whatever it
+		// answers, finished or not), the builder is Reset, and the second history is answered call by call as for `ops`
+		parts := strings.SplitN(payload, " RESET ", 2)
+		if len(parts) != 2 {
+			return "bad-request\tno RESET"
+		}
+		ops1, err1 := ParseOps(strings.Fields(parts[0]))
+		ops2, err2 := ParseOps(strings.Fields(parts[1]))
+		if err1 != nil || err2 != nil {
+			return "bad-request\t" + fmt.Sprint(err1, err2)
+		}
+		var outs []string
+		var final string
+		_, panicked, pv := Catch(func() error {
+			nb := proto.NewBuilder()
+			mk := func(v Val) (datamodel.Node, error) { return BuildBasic(v, nil) }
+			Catch(func() error { RunOps(nb, ops1, mk); return nil })
+			nb.Reset()
+			outs, final = RunOps(nb, ops2, mk)
+			return nil
+		})
+		if panicked {
+			return "panic\t" + oneLine(fmt.Sprint(pv))
+		}
+		return "ops\t" + strings.Join(outs, " ") + " | " + oneLine(final)
+	}
 	if route == "ops" {
 		// a history of assembler calls (asmdrive.go), answered call by call: `ops\t<outcome per call> | <final>`
 		ops, err := ParseOps(strings.Fields(payload))
@@ -732,7 +759,7 @@ func GenObserve(proto datamodel.NodePrototype, route, payload string, seed uint6
 	err, panicked, pv := Catch(func() error {
 		nb := proto.NewBuilder()
 		switch route {
-		case "direct", "direct-rand", "keys", "node":
+		case "direct", "direct-rand", "keys", "node", "direct-uint":
 			v, err := ParseTermString(payload)
 			if err != nil {
 				return fmt.Errorf("harness: bad term: %v", err)
@@ -740,6 +767,10 @@ func GenObserve(proto datamodel.NodePrototype, route, payload string, seed uint6
 			switch route {
 			case "direct":
 				err = Assemble(nb, v, nil)
+			case "direct-uint":
+				UintNodesForNonNegative = true
+				err = Assemble(nb, v, nil)
+				UintNodesForNonNegative = false
 			case "keys":
 				err = assembleKeys(nb, v)
 			case "node":
